@@ -158,6 +158,8 @@ func vConc(x int) int                { return x }
 func vConcBool(x bool) bool          { return x }
 func vEngine() bool                  { return false }
 func vPrune()                        { panic(vPrunedT{}) }
+func vStepBudget(n int, class, msg string) {}
+func vStepBudgetEnd()                    {}
 func vSteps() int                    { return 0 }
 func vSinkText(p interface{}) string {
 	switch w := p.(type) {
